@@ -349,6 +349,7 @@ def rebuild_rules(repo: Repo, rep, P: str):
     outer2, inner2 = loops[1]
     g2 = CFG(inner2, loop_body=True)
     paths2 = g2.paths(g2.entry, [g2.exit, g2.break_exit, g2.ret_exit], max_visits=2, limit=4000, labels_excluded={"exc", "reraise", "nomatch"}) or []
+    paths2 = [p_ for p_ in paths2 if g2.feasible(p_)]
     seen = set()
     n2 = 0
     for path in paths2:
